@@ -65,7 +65,7 @@ def leafs(v, rng):
     yield "trex", full("trex", v.u(1), v.u(3), [F(4, v.u(4)) for _ in range(5)])
     yield "smhd", full("smhd", v.u(1), v.u(3), [F(2, v.u(2)), F(2, 0)])
     yield "vmhd", full("vmhd", v.u(1), v.u(3), [F(2, v.u(2)), F(2, v.u(2)), F(2, v.u(2)), F(2, v.u(2))])
-    for name in (b"", b"\0", b"VideoHandler\0", b"abc", "Vidéo\0".encode(), b"a\0b\0"):
+    for name in (b"", b"\0", b"VideoHandler\0", b"abc", "Vidéo\0".encode(), b"a\0b\0", "\U0001F3AC clip \u00fc\0".encode()):
         yield "hdlr_%d" % len(name), full("hdlr", v.u(1), v.u(3), [F(4, 0), Raw(v.bytes(4)), Raw(b"\0" * 12), Raw(name)])
     for bits in range(32):
         flags = 0
@@ -110,12 +110,14 @@ def leafs(v, rng):
     for ver in (0, 1):
         yield "emsg_v%d" % ver, isogen.emsg(ver, v.u(4), v.u(8 if ver else 4), v.u(4), v.u(4), b"urn:" + bytes([97 + v.u(1, 26)]), b"v", v.bytes(v.u(1, 9)))
         yield "emsg_v%d_empty" % ver, isogen.emsg(ver, v.u(4), v.u(8 if ver else 4), v.u(4), v.u(4), b"", b"", b"")
+        yield "emsg_v%d_utf8" % ver, isogen.emsg(ver, v.u(4), v.u(8 if ver else 4), v.u(4), v.u(4), "urn:b\u00fccher:\u2615".encode(), "caf\u00e9".encode(), v.bytes(3))
     for dt in (0, 1, 13, 21):
         for n in (0, 1, 20):
             yield "data_%d_%d" % (dt, n), isogen.data_box(dt, v.bytes(n))
     yield "vpcc", full("vpcC", 1, 0, [F(1, v.u(1)), F(1, v.u(1)), F(1, v.u(1)), F(1, v.u(1)), F(1, v.u(1)), F(1, v.u(1)), F(2, 0)])
     yield "url_self", full("url ", 0, 1)
     yield "url_loc", full("url ", 0, 0, [Raw(b"http://x/" + bytes([97 + v.u(1, 26)]) + b"\0")])
+    yield "url_utf8", full("url ", 0, 0, [Raw("http://x/\u00e9t\u00e9\0".encode())])
     yield "dinf", isogen.dinf()
 
 
